@@ -12,7 +12,9 @@ LEVEL = 'exploration'
 TARGETS = ['H(ns,ev)', 'H(ns,*)', 'H(*,ev)', 'H(*,*)', 'NS(ns)', 'NS(*)']
 ARGSETS = [[], [1], ['a', {'b': 2}]]
 VARIANTS = [('Server', False), ('AsyncServer', False), ('AsyncServer', True),
-            ('Client', False), ('AsyncClient', False), ('AsyncClient', True)]
+            ('Client', False), ('AsyncClient', False), ('AsyncClient', True),
+            ('AsyncServer', 'mixed'), ('AsyncClient', 'mixed')]
+OTHER_NS = '/second'
 
 
 def expected_target(mask, event, reserved):
@@ -38,7 +40,7 @@ def build_registry(obj, is_server, is_async_cls, coro, mask, other, ns, log,
     """Register the targets selected by mask; every target records
     (target index, event-as-routed, args)."""
     def fn(i, ev):
-        if coro:
+        if coro is True or (coro == 'mixed' and i % 2 == 1):
             async def h(*a):
                 log.append((i, ev, a))
         else:
@@ -58,6 +60,21 @@ def build_registry(obj, is_server, is_async_cls, coro, mask, other, ns, log,
         obj.on('unrelated', fn(9, 'unrelated'), namespace=ns)
     if other in ('star', 'both'):
         obj.on('unrelated2', fn(9, 'unrelated2'), namespace='*')
+    if coro == 'mixed':
+        # the same event names are also handled on another namespace by a
+        # handler of the *other* kind than the one chosen for `ns`
+        chosen = expected_target(mask, 'ev', False)
+        opposite_is_coro = not (chosen is not None and chosen % 2 == 1)
+        for ev in events:
+            def mk2(ev):
+                if opposite_is_coro:
+                    async def h2(*a):
+                        log.append((7, ev, a))
+                else:
+                    def h2(*a):
+                        log.append((7, ev, a))
+                return h2
+            obj.on(ev, mk2(ev), namespace=OTHER_NS)
     if is_server:
         base = socketio.AsyncNamespace if is_async_cls else socketio.Namespace
     else:
@@ -68,7 +85,7 @@ def build_registry(obj, is_server, is_async_cls, coro, mask, other, ns, log,
         d = {}
         for ev in events:
             def mk(ev):
-                if coro:
+                if coro is True or (coro == 'mixed' and i % 2 == 1):
                     async def m(self, *a):
                         log.append((i, 'on_' + ev, a))
                 else:
@@ -107,7 +124,8 @@ def run_server(cls, coro, mask, other, ns):
     log = []
     build_registry(w.sio, True, is_async, coro, mask, other, ns, log,
                    ['connect', 'disconnect', 'ev'])
-    what = f'{cls}{"/coro" if coro else ""} mask={mask:06b} other={other}'
+    what = f'{cls}{"/" + str(coro) if coro else ""} mask={mask:06b} ' \
+           f'other={other}'
     t = w.new_transport(environ={'env': 1})
     w.recv_packet(t, 0, ns)
     sid = w.sid_of(t, ns)
@@ -122,6 +140,21 @@ def run_server(cls, coro, mask, other, ns):
         w.recv_packet(t, 2, ns, None, ['ev'] + args)
         check_dispatch(viols, what, log[:], mask, 'ev', False, ns,
                        (sid,) + tuple(args))
+    if coro == 'mixed':
+        # the same event on the other namespace, after it was seen on `ns`
+        del log[:]
+        w.recv_packet(t, 0, OTHER_NS)
+        sid2 = w.sid_of(t, OTHER_NS)
+        del log[:]
+        w.recv_packet(t, 2, OTHER_NS, None, ['ev', 5])
+        if log != [(7, 'ev', (sid2, 5))]:
+            viols.append(('C13/server/mixed-styles', f'{what}: after "ev" '
+                          f'was dispatched on {ns}, the handler of the other '
+                          f'kind on {OTHER_NS} saw {log!r}'))
+        del log[:]
+        w.recv_packet(t, 2, ns, None, ['ev', 6])
+        check_dispatch(viols, what, log[:], mask, 'ev', False, ns,
+                       (sid, 6))
     del log[:]
     w.recv_packet(t, 1, ns)
     check_dispatch(viols, what, log[:], mask, 'disconnect', True, ns,
@@ -140,7 +173,13 @@ def run_client(cls, coro, mask, other, ns):
     log = []
     build_registry(w.c, False, is_async, coro, mask, other, ns, log, events)
     nsp = '' if ns == '/' else ns + ','
-    r = w.connect(script=[['0%s{"sid":"S"}' % nsp]], namespaces=[ns])
+    if coro == 'mixed':
+        r = w.connect(script=[['0%s{"sid":"S"}' % nsp],
+                              ['0%s,{"sid":"S2"}' % OTHER_NS]],
+                      namespaces=[ns, OTHER_NS])
+        log[:] = [e for e in log if e[0] != 7]
+    else:
+        r = w.connect(script=[['0%s{"sid":"S"}' % nsp]], namespaces=[ns])
     if r[0] != 'ok':
         viols.append(('C13/client/connect', f'{what}: connect failed {r}'))
         w.close()
@@ -151,6 +190,16 @@ def run_client(cls, coro, mask, other, ns):
         w.deliver_packet(2, ns, None, ['ev'] + args)
         check_dispatch(viols, what, log[:], mask, 'ev', False, ns,
                        tuple(args))
+    if coro == 'mixed':
+        del log[:]
+        w.deliver_packet(2, OTHER_NS, None, ['ev', 5])
+        if log != [(7, 'ev', (5,))]:
+            viols.append(('C13/client/mixed-styles', f'{what}: after "ev" '
+                          f'was dispatched on {ns}, the handler of the other '
+                          f'kind on {OTHER_NS} saw {log!r}'))
+        del log[:]
+        w.deliver_packet(2, ns, None, ['ev', 6])
+        check_dispatch(viols, what, log[:], mask, 'ev', False, ns, (6,))
     del log[:]
     w.deliver_packet(1, ns)
     check_dispatch(viols, what,
